@@ -49,13 +49,13 @@ fn('emmet.scanner:Scanner.eat_while', props=P16,
    ensures=['old(self.pos) <= self.pos',
             'self.pos <= max(old(self.pos), self.end)',
             'result == (self.pos != old(self.pos))',
-            'forall(old(self.pos), self.pos, lambda i: holds(match, self.string[i]))',
+            'chars_hold(self.string, old(self.pos), self.pos, match)',
             'self.pos >= self.end or not holds(match, self.string[self.pos])'],
    modifies=['self.pos'],
    loops={0: {'anchor': 'while self.pos < self.end and self.eat(match)',
               'invariant': ['start <= self.pos',
                             'self.pos <= max(start, self.end)',
-                            'forall(start, self.pos, lambda i: holds(match, self.string[i]))'],
+                            'chars_hold(self.string, start, self.pos, match)'],
               'decreases': 'self.end - self.pos + 1'}})
 
 fn('emmet.scanner:Scanner.error', props=P16,
